@@ -134,6 +134,10 @@ def store_strategy():
       st.tuples(st.just('set_study'), nsidx, key, _value()),
       st.tuples(st.just('set_trial'), tref, nsidx, key, _value()),
       st.tuples(st.just('delta'), st.lists(item, min_size=1, max_size=4)),
+      # one request whose entries for two trials and the study alternate
+      st.tuples(st.just('delta'), st.lists(
+          st.tuples(st.sampled_from([0, 1, 0, 1, 'study']), nsidx, key,
+                    _value()).map(list), min_size=3, max_size=6)),
       st.tuples(st.just('suggest'), st.sampled_from(['w1', 'w2']),
                 st.integers(1, 2), st.lists(algo_item, max_size=3),
                 # the algorithm may deliver nothing and still persist state
@@ -146,6 +150,9 @@ def store_strategy():
   return st.fixed_dictionaries({
       'backend': st.sampled_from(['ram', 'sqlmem']),
       'via': st.sampled_from(['raw', 'client']),
+      # a sibling study of the same owner with trials of the same ids and
+      # metadata of its own: it must never be read or written
+      'sibling': st.sampled_from([False, True]),
       'namespaces': st.lists(ns, min_size=4, max_size=4),
       'ops': st.lists(op, min_size=3, max_size=24),
   })
@@ -195,6 +202,25 @@ def check_store(case):
     sname = st_.name
     client = vizier_client.VizierClient(sname, 'w1', s)
     study = clients.Study(client)
+    sibling_snapshot = None
+    if case.get('sibling'):
+      out.cls('sibling_study')
+      sib = svc.create_study(s, 'o', 's2')
+      for k_ in range(4):
+        t_ = svc.params_to_trial_proto(svc.det_params(40 + k_))
+        t_.metadata.add(key='sib', value='t%d' % k_)
+        s.CreateTrial(vsp.CreateTrialRequest(parent=sib.name, trial=t_))
+      req_ = vsp.UpdateMetadataRequest(name=sib.name)
+      u_ = req_.delta.add()
+      u_.metadatum.key, u_.metadatum.value = 'sib', 'study'
+      s.UpdateMetadata(req_)
+
+      def sibling_state():
+        return (svc.pb_hex(svc.norm_study(s.GetStudy(vsp.GetStudyRequest(
+            name=sib.name)))), [svc.pb_hex(svc.norm_trial(t)) for t in
+                                s.ListTrials(vsp.ListTrialsRequest(
+                                    parent=sib.name)).trials])
+      sibling_snapshot = sibling_state()
     model = {}  # (scope, ns, key) -> canon value ; scope 'study' or int id
     trials = []  # ids in creation order
     touched_ns = set()
@@ -312,6 +338,10 @@ def check_store(case):
           out.cls('missing_trial_update')
           if len(items) > 1:
             out.cls('mixed_delta_with_missing_trial')
+        scopes = [i[0] for i in items if i[0] != 'study']
+        if any(scopes[i] != scopes[i + 1] and scopes[i] in scopes[i + 2:]
+               for i in range(len(scopes) - 2)):
+          out.cls('interleaved_trials_in_one_delta')
       elif kind == 'suggest':
         _, worker, n, writes = op[:4]
         delivery = op[4] if len(op) > 4 else 'exact'
@@ -368,6 +398,11 @@ def check_store(case):
             pass
       if not compare(step, op):
         break
+      if sibling_snapshot is not None and sibling_state() != sibling_snapshot:
+        out.violate('store/sibling_study_changed/after_%s' % kind,
+                    'step %d op=%r: study s2 of the same owner changed' % (
+                        step, op))
+        break
     hostile_ns = any(_hostile(ns) for ns in touched_ns)
     out.nontrivial = overwrote and len(touched_ns) >= 2 and hostile_ns
     if overwrote:
@@ -379,6 +414,143 @@ def check_store(case):
     svc.close_servicer(s)
   return out
 
+
+
+# ------------------------------------------------------- in-RAM supporter
+def inram_strategy():
+  comp = st.sampled_from(_components()[:12] + ['ab', 'a:', '\\:', ':\\'])
+  ns = st.lists(comp, max_size=3)
+  nsidx = st.integers(0, 3)
+  key = st.sampled_from(KEYS)
+  scope = st.one_of(st.just('study'), st.integers(0, 4))
+  item = st.tuples(scope, nsidx, key, _value()).map(list)
+  op = st.one_of(
+      # the algorithm's decision carries a MetadataDelta
+      st.tuples(st.just('algo'), st.integers(0, 2),
+                st.lists(item, min_size=1, max_size=4),
+                # how the delta's Metadata objects are handed over: the root
+                # object, or a view of the same store positioned in a namespace
+                st.sampled_from(['root', 'view_ns', 'view_abs', 'attach'])),
+      # the user edits metadata of the study / of a trial directly
+      st.tuples(st.just('user'), item),
+  ).map(list)
+  return st.fixed_dictionaries({
+      'namespaces': st.lists(ns, min_size=4, max_size=4),
+      'ops': st.lists(op, min_size=3, max_size=16)})
+
+
+def check_inram(case):
+  from harness import boot
+  boot.init()
+  from vizier import pythia
+  from vizier import pyvizier as vz
+  out = core.Out()
+  nss = [tuple(n) for n in case['namespaces']]
+  problem = vz.ProblemStatement()
+  problem.search_space.root.add_float_param('x', 0.0, 1.0)
+  problem.metric_information.append(vz.MetricInformation(
+      'm', goal=vz.ObjectiveMetricGoal.MAXIMIZE))
+  sup = pythia.InRamPolicySupporter(problem)
+  box = {}
+
+  class Policy(pythia.Policy):
+
+    def suggest(self, request):
+      return pythia.SuggestDecision(
+          [vz.TrialSuggestion({'x': 0.5}) for _ in range(box['n'])],
+          metadata=box['delta'])
+
+    def early_stop(self, request):
+      raise NotImplementedError()
+  policy = Policy()
+  box.update(n=2, delta=vz.MetadataDelta())
+  sup.SuggestTrials(policy, 2)  # trials 1, 2
+  model = {}
+  touched = set()
+  overwrote = False
+
+  def build(items, style):
+    """items: [(scope, ns tuple, key, py value)] -> MetadataDelta."""
+    per = {}
+    for scope, ns, key, val in items:
+      per.setdefault(scope, vz.Metadata()).abs_ns(vz.Namespace(ns))[key] = val
+
+    def hand(md, ns0):
+      if style == 'root':
+        return md
+      if style == 'view_ns':
+        return md.ns('algo_state')  # same store, positioned elsewhere
+      if style == 'view_abs':
+        return md.abs_ns(vz.Namespace(ns0))
+      fresh = vz.Metadata()  # 'attach': copied into another object
+      fresh.attach(md)
+      return fresh
+    delta = vz.MetadataDelta()
+    on_trials = {}
+    on_study = vz.Metadata()
+    for scope, md in per.items():
+      ns0 = [i[1] for i in items if i[0] == scope][0]
+      if scope == 'study':
+        on_study = hand(md, ns0)
+      else:
+        on_trials[scope] = hand(md, ns0)
+    return vz.MetadataDelta(on_study=on_study, on_trials=on_trials)
+
+  def flat(md):
+    return {(tuple(ns), k): _canon_value(v) for ns, k, v in md.all_items()}
+
+  for step, op in enumerate(case['ops']):
+    ids = sorted(t.id for t in sup.trials)
+    if op[0] == 'algo':
+      _, n, raw_items, style = op
+      items = []
+      for scope, nsx, key, v in raw_items:
+        sc = 'study' if scope == 'study' else ids[scope % len(ids)]
+        items.append((sc, nss[nsx], key, v))
+      box.update(n=n, delta=build(
+          [(sc, ns, key, _mk_value(v)[0]) for sc, ns, key, v in items], style))
+      try:
+        sup.SuggestTrials(policy, max(n, 1))
+      except Exception as e:  # pylint: disable=broad-except
+        out.violate('inram/suggest_raised/%s' % type(e).__name__,
+                    'step %d op=%r: %r' % (step, op, e))
+        break
+      for sc, ns, key, v in items:
+        k = (sc, ns, key)
+        overwrote = overwrote or k in model
+        model[k] = _mk_value(v)[1]
+        touched.add(ns)
+      out.cls('delta_' + style)
+    else:
+      scope, nsx, key, v = op[1]
+      sc = 'study' if scope == 'study' else ids[scope % len(ids)]
+      tgt = sup.study_config.metadata if sc == 'study' else [
+          t for t in sup.trials if t.id == sc][0].metadata
+      tgt.abs_ns(vz.Namespace(nss[nsx]))[key] = _mk_value(v)[0]
+      k = (sc, nss[nsx], key)
+      overwrote = overwrote or k in model
+      model[k] = _mk_value(v)[1]
+      touched.add(nss[nsx])
+      out.cls('user_entry')
+    got = {('study',) + k: v for k, v in flat(sup.study_config.metadata).items()}
+    for t in sup.GetTrials():
+      for k, v in flat(t.metadata).items():
+        got[(t.id,) + k] = v
+    if got != model:
+      missing = sorted((k for k in model if k not in got), key=repr)
+      extra = sorted((k for k in got if k not in model), key=repr)
+      diff = sorted((k for k in model if k in got and got[k] != model[k]),
+                    key=repr)
+      kind = 'missing' if missing else 'extra' if extra else 'wrong_value'
+      out.violate('inram/%s/after_%s%s' % (kind, op[0], (
+          '_' + op[3]) if op[0] == 'algo' else ''),
+                  'step %d op=%r missing=%r extra=%r differ=%r' % (
+                      step, op, missing[:3], extra[:3], diff[:3]))
+      break
+  out.nontrivial = overwrote and len(touched) >= 2
+  if overwrote:
+    out.cls('overwrite')
+  return out
 
 
 # ------------------------------------------------- coverage-guided fuzzing
@@ -462,7 +634,14 @@ def families(tier):
                                     'algorithm_write',
                                     'algorithm_write_with_zero_suggestions',
                                     'via_raw', 'via_client',
-                                    'ram', 'sqlmem')),
+                                    'ram', 'sqlmem', 'sibling_study',
+                                    'interleaved_trials_in_one_delta')),
+      core.Family('inram_store', check_inram, strategy=inram_strategy,
+                  budget={'quick': 1200, 'thorough': 30000},
+                  shards={'quick': 4, 'thorough': 16},
+                  required_classes=('overwrite', 'user_entry', 'delta_root',
+                                    'delta_view_ns', 'delta_view_abs',
+                                    'delta_attach')),
       core.Family('ns_fuzz', check_ns_fuzz, enumerate=enum_fuzz,
                   shards={'quick': 2, 'thorough': 8},
                   required_classes=('fuzz_campaign',)),
